@@ -5,6 +5,7 @@ import OAuth2Model.Driver.AuthUrl
 import OAuth2Model.Driver.Pkce
 import OAuth2Model.Driver.UrlT
 import OAuth2Model.Driver.SecEq
+import OAuth2Model.Driver.Resp
 import OAuth2Model.Driver.Tok
 import OAuth2Model.Driver.Err
 import OAuth2Model.Driver.Adapter
@@ -24,6 +25,7 @@ def dispatch (line : String) : String :=
     | "rand" => Drv.PkceOp.runRand args
     | "url" => Drv.UrlOp.run args
     | "seceq" => Drv.SecEqOp.run args
+    | "resp" => Drv.RespOp.run args
     | "tok" => Drv.TokOp.run args
     | "err" => Drv.ErrOp.run args
     | "adp" => Drv.AdapterOp.run args
